@@ -4,6 +4,7 @@ import (
 	"context"
 	"errors"
 	"fmt"
+	"sort"
 	"strings"
 	"testing"
 	"testing/synctest"
@@ -20,10 +21,48 @@ import (
 // ContextWithTeardown) run as actors behind the gate proxy; the schedule interleaves
 // their individual store operations and watch deliveries with each other and with
 // environment writes. Compared action by action with Cosi.Model.Wrap (C03, C04).
+//
+// Header remote=1: every actor holds the state the way a REMOTE caller does — the real
+// client.Adapter over real grpc-go (bufconn) to the real server.State wrapping that actor's gated
+// state (grpcFront). The gate, and so the schedule and what is recorded, is the same: single
+// store operations and watch deliveries ON THE WRAPPED STATE; Teardown / TeardownAndDestroy run in
+// the server's handler (native RPCs), everything else in the client over the adapter's store RPCs
+// and watch streams. Compared with Cosi.Model.WrapRemote.
+//
+// Small histories (capacity 2..6) and `churn` bursts of writes to a third resource of the type make
+// a helper's watch — whose next event the gate holds back until the actor is scheduled: a stalled
+// consumer — fall behind the history: the watch FAILS (Errored) and the helper must notice.
 
 func init() { Register("helpers", func() Engine { return &helpersEng{} }) }
 
-type helpersEng struct{}
+type helpersEng struct {
+	stats map[string]int
+}
+
+func (e *helpersEng) count(k string, n int) {
+	if e.stats == nil {
+		e.stats = map[string]int{}
+	}
+
+	e.stats[k] += n
+}
+
+// Notes reports what the executed cases exercised (evidence only).
+func (e *helpersEng) Notes() []string {
+	ks := make([]string, 0, len(e.stats))
+	for k := range e.stats {
+		ks = append(ks, k)
+	}
+
+	sort.Strings(ks)
+
+	parts := make([]string, 0, len(ks))
+	for _, k := range ks {
+		parts = append(parts, fmt.Sprintf("%s=%d", k, e.stats[k]))
+	}
+
+	return []string{"helpers exercised: " + strings.Join(parts, " ")}
+}
 
 func (*helpersEng) Name() string { return "helpers" }
 
@@ -36,7 +75,7 @@ func (*helpersEng) Cases(thorough bool) int {
 }
 
 func (*helpersEng) Rule() string {
-	return "2-5 helper actors (uwc/modify/addfin/removefin/teardown/tad/watchfor/ctx with random mutators, owners, expected phases) on 1-2 resources, scheduled one store op / watch delivery at a time, interleaved with environment create/modify/destroy; non-trivial = some helper retried after a version conflict or an environment write landed between a helper's read and its write, and at least 2 helpers finished; distinct by hash of the op lines"
+	return "2-5 helper actors (uwc/modify/addfin/removefin/teardown/tad/watchfor/ctx with random mutators, owners, expected phases) on 1-2 resources, scheduled one store op / watch delivery at a time, interleaved with environment create/modify/destroy; a third of the cases with every actor behind the real gRPC client adapter + server (remote=1), half of the cases with a history of 2..6 events and bursts of writes to a third resource, so that stalled helper watches overrun the history and fail; non-trivial = some helper retried after a version conflict or an environment write landed between a helper's read and its write, and at least 2 helpers finished; distinct by hash of the op lines"
 }
 
 func (*helpersEng) NonTrivial(c Case, out []string) bool {
@@ -73,7 +112,25 @@ func (*helpersEng) NonTrivial(c Case, out []string) bool {
 var helperMuts = []string{"setLabel:k1:v1", "setLabel:k1:v2", "setLabel:k2:x", "addFins:A", "addFins:B", "addFins:A+B", "removeFins:A", "removeFins:B", "removeFins:A+B", "setSpec:s1", "setSpec:s2", "noop", "fail", "setPhaseTD"}
 
 func (e *helpersEng) Gen(r *Rand, thorough bool, idx int) Case {
-	c := Case{Header: fmt.Sprintf("# engine=helpers flavour=namespaced nsaware=1 initcap=%d maxcap=%d gap=0 case=%d", 3+r.Intn(20), 40, idx)}
+	initcap, maxcap, gap, remote := 3+r.Intn(20), 40, 0, 0
+
+	small := r.Chance(1, 2)
+	if small {
+		// a history the writers can run away from while the gate holds back a watcher's next event
+		initcap = 2 + r.Intn(3)
+		maxcap = initcap + r.Intn(3)
+
+		if initcap > 2 && r.Chance(1, 3) {
+			gap = 1
+		}
+	}
+
+	if r.Chance(1, 3) {
+		remote = 1
+	}
+
+	c := Case{Header: fmt.Sprintf("# engine=helpers flavour=namespaced nsaware=1 initcap=%d maxcap=%d gap=%d remote=%d case=%d", initcap, maxcap, gap, remote, idx)}
+	churned := 0
 	ids := []string{"a", "a", "a", "b"}
 	t := 0
 	tick := func() int { t++; return t }
@@ -163,6 +220,17 @@ func (e *helpersEng) Gen(r *Rand, thorough bool, idx int) Case {
 
 	for i := 0; i < steps; i++ {
 		switch x := r.Intn(100); {
+		case small && x < 8:
+			// a burst of writes to a third resource of the type: nobody watches it, every watcher of
+			// the type has to get past it
+			if churned == 0 {
+				c.Ops = append(c.Ops, fmt.Sprintf("create t=%d ns=n1 typ=T1 id=z ver=undefined owner= phase=running fins= labels= c=0 u=0 spec=s0 as=", tick()))
+			}
+
+			for k := 2 + r.Intn(6); k > 0; k-- {
+				churned++
+				c.Ops = append(c.Ops, fmt.Sprintf("envmod t=%d ns=n1 typ=T1 id=z mut=setSpec:s%d", tick(), 1+churned%2))
+			}
 		case x < 60:
 			// prefer recently spawned actors: older ones have mostly finished
 			a := actors[len(actors)-1-r.Intn(min(3, len(actors)))]
@@ -332,6 +400,15 @@ func RunHelper(ctx context.Context, st state.State, a Args) string {
 			return errRet(err)
 		}
 
+		// the tombstone of a Destroyed event arrives over gRPC as a spec-less resource of undefined
+		// version stamped with the wall clock of the watch start (resource.NewMetadata): not compared
+		if !resource.IsTombstone(r) && r.Metadata().Version().String() == resource.VersionUndefined.String() {
+			cp := r.DeepCopy()
+			cp.Metadata().SetCreated(time.Time{})
+			cp.Metadata().SetUpdated(time.Time{})
+			r = cp
+		}
+
 		return "res " + ResStr(r)
 	case "ctx":
 		ctx2, err := st.ContextWithTeardown(ctx, ptr)
@@ -372,6 +449,19 @@ func (e *helpersEng) Exec(t *testing.T, c Case) []string {
 		inner := namespaced.NewState(func(ns resource.Namespace) state.CoreState { return builder(ns) })
 
 		gates := map[string]*ActorGate{}
+		remote := h["remote"] == "1"
+
+		var stops []func()
+
+		defer func() {
+			cancel()
+
+			for _, stop := range stops {
+				stop()
+			}
+
+			synctest.Wait()
+		}()
 
 		for _, line := range c.Ops {
 			op, a := ParseLine(line)
@@ -391,7 +481,15 @@ func (e *helpersEng) Exec(t *testing.T, c Case) []string {
 					g := NewActorGate(a["a"], nil)
 					gates[a["a"]] = g
 					actx, acancel := context.WithCancel(ctx)
-					st := state.WrapCore(NewGatedState(inner, g))
+					var core state.CoreState = NewGatedState(inner, g)
+
+					if remote {
+						front, stop := grpcFront(t, core)
+						core = front
+						stops = append(stops, stop)
+					}
+
+					st := state.WrapCore(core)
 
 					go func() {
 						ret := func() (ret string) {
@@ -431,6 +529,26 @@ func (e *helpersEng) Exec(t *testing.T, c Case) []string {
 		cancel()
 		synctest.Wait()
 	})
+
+	tag := "direct_"
+	if h["remote"] == "1" {
+		tag = "remote_"
+	}
+
+	e.count(tag+"cases", 1)
+
+	for _, o := range out {
+		switch {
+		case strings.Contains(o, "cancelled cause=watch"):
+			e.count(tag+"ctx_cancelled_by_failed_watch", 1)
+		case strings.HasPrefix(o, "did recv errored"):
+			e.count(tag+"failed_watch_delivered_to_other_helper", 1)
+		}
+
+		if strings.Contains(o, "-> done") {
+			e.count(tag+"helpers_finished", 1)
+		}
+	}
 
 	return out
 }
